@@ -1,7 +1,7 @@
 (* C04: decoding a Hello yields the attributes the platform supplied; Linux getters.
    Statements only: each theorem restates the full type of a lemma proved in coq/proofs and is closed by
    `exact`; Print Assumptions beneath.  Regenerate with bin/genprops.py after a lemma changes. *)
-From LLTD Require Import BlockFun SpecTx TxProofs BufferLevel.
+From LLTD Require Import BlockFun SpecTx TxProofs BufferLevel HelloHistory.
 
 Theorem C04_hello_decodes_to_attributes :
   forall (c : pcfg) (g : gcfg),
@@ -89,3 +89,19 @@ Theorem C04_on_the_buffer_level_model :
   (In 5%N (map fst (hf_props hf)) <-> c_wifi c <> None /\ c_bssid c <> None).
 Proof. exact C04_buffer_level. Qed.
 Print Assumptions C04_on_the_buffer_level_model.
+
+Theorem C04_every_hello_of_any_history :
+  forall (junk : N) (cfgs : N -> pcfg) (g : gcfg) (mtus : N -> N),
+  SystemRefinement.cfgs_nominal cfgs mtus ->
+  (forall k : N, cfg_wf (cfgs k) g) ->
+  forall (l : list BlockSafe.fop) (r : registry) (w : world) (bl : nat) (bb : N),
+  Forall (SystemRefinement.fop_len cfgs) l ->
+  BlockSafe.ledger_reg bl bb r w ->
+  exists (r' : registry) (w' : world) (added : list action),
+  BlockSafe.run_frames no_fail no_fail junk cfgs g r l w = Ok r' w' /\
+  w_trace w' = added ++ w_trace w /\
+  BlockSafe.ledger_reg bl bb r' w' /\
+  (forall (k : N) (ok : bool) (fr : list N),
+  In (Send k ok fr) added -> nth 17 fr 0%N = opcode_hello -> hello_explained cfgs g l k k ok fr).
+Proof. exact C03_C04_buffer_level_trace. Qed.
+Print Assumptions C04_every_hello_of_any_history.
